@@ -20,8 +20,8 @@ REGISTRATION = {
             "other name class (OLLAMA_NOPRUNE: nothing is removed by the start-up sequence or a pull); no operation of "
             "the model's alphabet creates a case twin (NOT covered: the pull inside `create ... from` of a model that is "
             "not in the store, which is tied by L1 as pullAt-then-createAt but is no operation of the step function — "
-            "on /repo it does create a twin, known finding N4); a failed create changes no manifest. The theorems "
-            "are stated for the pinned and for the repaired variants of five findings (F16a, F16b, N1, N2, N3); the "
+            "before the repair of finding N4 it created a twin; a residual remains: `create Foo from foo` with neither stored); a failed create changes no manifest. The theorems "
+            "are stated for the pinned and for the repaired variants of five findings (F16a, F16b, N1, N2, N3; N4 is a flag of the oracle); the "
             "driver probes which variant the tree under test implements and the check requires every finding recorded "
             "as fixed to be probed as repaired. The model is tied to the real gin handlers "
             "(streaming and non-streaming create) by random operation histories compared after every operation "
@@ -288,7 +288,7 @@ def run(ctx):
         "LitterOk / LegacyOk: a file planted by other means under a blob name (sha256-<hex> or legacy sha256:<hex>) holds that content",
         "`create ... from` of a model that is not in the store (the pull inside parseFromModel) is the model function "
         "createFromPull (invariant + frame proved, L1 exact) but not an operation of `step`: the history theorems, in "
-        "particular the case-twin ones, do not quantify over it; on /repo it creates a case twin (known finding N4)",
+        "particular the case-twin ones, do not quantify over it (finding N4, fixed db13baf30: the FROM name is resolved first; residual: `create Foo from foo` with neither in the store pulls foo and then writes Foo — never generated)",
         "GGUF decoding, template.Named and template.Parse are parameters of the model, fed per pool file / per request from the real functions",
         "valid name parts are ASCII, so the model's ASCII case folding agrees with strings.EqualFold",
         "outside the model: pull protocol (C03), resume of interrupted pulls, adapters/projectors, safetensors, quantize, "
